@@ -1909,6 +1909,12 @@ func (bc *Blockchain) AddBlock(block *block.Block) error {
 				bc.log.Warn(fmt.Sprintf("transaction %s failed to verify: %s", tx.Hash().StringLE(), err))
 			}
 		}
+		// A transaction can silently replace the conflicting ones added to the pool
+		// before it, but a valid block can't contain conflicting transactions.
+		if bc.config.VerifyTransactions && mp.Count() != len(block.Transactions) {
+			return fmt.Errorf("invalid block: %w: %d of %d transactions conflict with the subsequent ones",
+				ErrMemPoolConflict, len(block.Transactions)-mp.Count(), len(block.Transactions))
+		}
 	}
 	return bc.storeBlock(block, mp)
 }
